@@ -136,7 +136,7 @@ def make_trivia(r: random.Random, cls: str, tag: str, indent: int):
     if cls == "mid_doc":
         return " " + _block_comment(r, tag, doc=True) + " ", 1
     if cls == "mid_mblock":
-        return " " + _block_comment(r, tag, multi=True, indent=indent) + " ", 1
+        return " " + _block_comment(r, tag, multi=True, lead=r.random() < 0.5, indent=indent) + " ", 1
     if cls == "mid_block_tight":
         return _block_comment(r, tag, tight=True), 1
     if cls == "mid_block2":
